@@ -16,6 +16,8 @@ FAMILIES = {
     "shutdownA": {"quick": 150, "thorough": 3000},  # graceful / abrupt shutdown of the real server at any moment
     "shutdownBs": {"quick": 200, "thorough": 4000}, # graceful shutdown with delayed shutdown-PING ack, user pings, stray PING ACKs
     "abuseB": {"quick": 400, "thorough": 8000},     # legal prefix + protocol violations / legal-but-unusual frames + probe, both roles
+    "floodBs": {"quick": 50, "thorough": 1500},     # hostile scripted client floods a real server with small limits (rapid reset, refused streams, tiny/empty DATA, CONTINUATION, PING/SETTINGS, stream errors, oversize lists), slow / non-accepting application, blocked writes; dense statistics
+    "floodBc": {"quick": 50, "thorough": 1500},     # hostile scripted server floods a real client (PUSH_PROMISE, 1xx, tiny/empty DATA, PING/SETTINGS, CONTINUATION, promise+reset)
     "conformSend": {"quick": 40, "thorough": 1500},
     "conformRecv": {"quick": 80, "thorough": 3000},  # TLC simulation runs of MC_Recv replayed on the real server (byte-exact)  # TLC simulation runs of MC_Send (x ~3 behaviours each) replayed on the real client
 }
@@ -24,7 +26,7 @@ SEND_SLICE = {"module": "MC_Send", "cfg_quick": "MC_Send_quick.cfg", "cfg_thorou
               "constants": "2 streams, IW=2 CW=3 MF=2 units, sends {3}, WU {2}, SETTINGS {0,3}, reserve {2}, 1 reset; every interleaving with a frame parked in the codec",
               "timeout_thorough": 2400, "coverage": False}
 
-WIRE_AB = ["mixA", "mixAd", "bpReset", "flowBs", "flowBc", "capRace", "ctlB", "concBc", "faultA", "goawayBc", "shutdownA", "abuseB", "shutdownBs"]
+WIRE_AB = ["mixA", "mixAd", "bpReset", "flowBs", "flowBc", "capRace", "ctlB", "concBc", "faultA", "goawayBc", "shutdownA", "abuseB", "shutdownBs", "floodBs", "floodBc"]
 
 RECV_SLICE = {"module": "MC_Recv", "cfg_quick": "MC_Recv_quick.cfg", "cfg_thorough": "MC_Recv_thorough.cfg",
               "constants": "2 streams, IW=6 CW=8, DATA {0,1,6} x padding {0,1} x END_STREAM, release {1,2}, 1 handle drop, 1 reset either side, target {6,10}, SETTINGS {1,8} applied at the peer's ACK; legal peer; leak rules at every quiescent state",
@@ -53,6 +55,9 @@ PLAN = {
             "must_hit": ["C14.settings_ack", "C14.pong", "C14.all_acked"]},
     "C15": {"rules": ["C15."], "families": WIRE_AB, "slices": [], "level": "exploration", "must_hit": []},
     "C16": {"rules": ["C16."], "families": WIRE_AB + ["conformSend"], "slices": [SEND_SLICE], "level": "model_checking", "must_hit": ["C16.nonzero", "C16.stream_bound"]},
-    "C19": {"rules": ["C19."], "families": WIRE_AB, "slices": [], "level": "exploration", "must_hit": []},
+    "C18": {"rules": ["C18."], "families": WIRE_AB, "slices": [], "level": "exploration",
+            "must_hit": ["C18.store_bound", "C18.recv_buffer_bound", "C18.send_buffer_bound", "C18.quota_counters", "C18.continuation_bound", "C18.owed_replies_bound"]},
+    "C19": {"rules": ["C19."], "families": WIRE_AB, "slices": [], "level": "exploration",
+            "must_hit": ["C19.forgotten", "C19.counts_idle", "C19.flow_idle", "C19.idle_close", "C19.no_premature_close"]},
     "C17": {"rules": ["C17."], "families": WIRE_AB, "slices": [], "level": "exploration", "must_hit": ["C17.single_rst"]},
 }
